@@ -571,7 +571,7 @@ func c10Nontrivial(c historyCase) bool {
 
 func TestC10_Histories(t *testing.T) {
 	mix := opMix{sets: true, delObj: true, delArr: true, setNullContainer: true, nonFinite: true, nullRoot: true}
-	runRapid(t, "C10_Histories", nCases(150_000, 400_000), func(t *rapid.T) {
+	runRapid(t, "C10_Histories", nCases(150_000, 600_000), func(t *rapid.T) {
 		maxOps := 6
 		if thorough() {
 			maxOps = 20
